@@ -72,124 +72,124 @@ func init() {
 	registerRule(&RuleDef{ID: "G-GATE", Min: 6, Doc: "a checked ExpandNamedUUIDs dominates every operation dispatch (emitted by N-COVER)", Run: noop})
 
 	registerProp(&PropDef{
-		ID:    "C01",
-		Rules: []string{"W1", "W2", "W3", "W4", "L2", "L5", "DEFER-APPEND", "PM-ONCE"},
+		ID:          "C01",
+		Rules:       []string{"W1", "W2", "W3", "W4", "L2", "L5", "DEFER-APPEND", "PM-ONCE"},
 		Explanation: "Decides the plumbing every history of C01 relies on, not the equality of cache and database contents: (W1-W3) for each of monitor / monitor_cond / monitor_cond_since the built-in server's notification is sent under the method name, arity and payload type that the client's registered handler decodes and that RFC 7047 / ovsdb-server(7) prescribe, and the monitor reply type matches on both sides; (W4) notifications are sent with a blocking rpc2 Call from inside Transact with no goroutine, and the client runs its handlers in the read loop (SetBlocking(true) before Run), so a client's own transaction is in its cache before Transact returns; (L2, DEFER-APPEND) deferUpdates/deferredUpdates are only touched under cacheMutex, appended at the tail and replayed front to back, which closes the 'notification before initial contents' window; (L5) a monitor is registered and snapshotted under txnMutex, so no transaction falls between snapshot and first notification; (PM-ONCE) one notification round per transaction over every monitor.",
-		NotCovered: "equality of cache and database contents over histories, column values, garbage-collected rows: value-level, not decidable by inspection of code shape",
+		NotCovered:  "equality of cache and database contents over histories, column values, garbage-collected rows: value-level, not decidable by inspection of code shape",
 	})
 	registerProp(&PropDef{
-		ID:    "C02",
-		Rules: []string{"A4", "A1", "T-SCAN", "A5", "L4", "X4"},
+		ID:          "C02",
+		Rules:       []string{"A4", "A1", "T-SCAN", "A5", "L4", "X4"},
 		Explanation: "Decides that no path lets a failed transaction touch committed state or reach a monitor: (A4) the committed rows and the reference index are written only in inMemoryDatabase.Commit/CreateDatabase and Commit is called only from OvsdbServer.Transact; (A1) the Database read API (List, Get, GetReferences) hands out no alias of committed storage, so executing a transaction cannot modify the database before commit; (T-SCAN) processMonitors and Commit are dominated by the loop that returns on the first result with a non-empty Error; (A5) no error result is discarded on the commit path; (X4) reference processing and the index check precede the success return with their errors tested; (L4) all of it under txnMutex.",
-		NotCovered: "shape of the reply array; atomicity of Commit itself if ApplyCacheUpdate failed midway (value dependent)",
+		NotCovered:  "shape of the reply array; atomicity of Commit itself if ApplyCacheUpdate failed midway (value dependent)",
 	})
 	registerProp(&PropDef{
-		ID:    "C03",
-		Rules: []string{"E6", "T-GUARD", "P-DIV", "N-COVER", "N-PHASE", "N-POS", "G-GATE"},
+		ID:          "C03",
+		Rules:       []string{"E6", "T-GUARD", "P-DIV", "N-COVER", "N-PHASE", "N-POS", "G-GATE"},
 		Explanation: "Decides a narrow structural clause of C03: every operation, mutator, condition function and wait condition constant has an explicit handler in every sibling table (Transact dispatch, ValidateOperations, AddOperation, Mutation/Condition decoders, mutate, ValidateMutation, Evaluate, ValidateCondition, Wait) (E6); the immutability test precedes every column write on the update/mutate paths (T-GUARD); mutation validation precedes mutate and rejects a zero divisor (P-DIV / G-VALIDATE); table/column validation precedes every dispatch (G-GATE).",
-		NotCovered: "what each handler computes (arithmetic, set/map semantics, read-your-writes overlay): needs the executable reference model the property names, which is another technique family",
+		NotCovered:  "what each handler computes (arithmetic, set/map semantics, read-your-writes overlay): needs the executable reference model the property names, which is another technique family",
 	})
 	registerProp(&PropDef{
-		ID:    "C04",
-		Rules: []string{"A4", "A1", "A3", "T-REFPOS", "X4"},
+		ID:          "C04",
+		Rules:       []string{"A4", "A1", "A3", "T-REFPOS", "X4"},
 		Explanation: "Decides that the reference index can only change at commit and cannot be corrupted through an alias, and that every reference-holding position is inspected: (A4) who may write the committed index; (A1) GetReferences returns copies; (A3) the in-place difference algorithms applied by the reference tracker only receive owned values and its private index is only filled from GetReferences copies; (T-REFPOS) getReferenceModificationsFromColumn has an arm for UUID, OvsSet and OvsMap and the map extractor builds key and value specs, each tested for UUIDs; (X4) ProcessReferences runs, with its error tested, before a transaction can succeed.",
-		NotCovered: "the garbage-collection fixpoint, weak-reference pruning, min-cardinality decisions: graph/value reasoning",
+		NotCovered:  "the garbage-collection fixpoint, weak-reference pruning, min-cardinality decisions: graph/value reasoning",
 	})
 	registerProp(&PropDef{
-		ID:    "C05",
-		Rules: []string{"X1", "X2", "X3", "L2", "T-WIRE"},
+		ID:          "C05",
+		Rules:       []string{"X1", "X2", "X3", "L2", "T-WIRE"},
 		Explanation: "Decides the index write discipline of cache.RowCache: (X1) an index entry is only deleted on paths that looked at the current owner set of that entry, so a value handed over between two rows of one batch survives in whatever order the batch is applied; (X2) only Create/Update/Delete and construction write RowCache.cache and RowCache.indexes; (X3) each of the three operations maintains every index in a loop over indexSpecs and writes the row map last; (L2) both maps are only touched under RowCache.mutex.",
-		NotCovered: "correctness of valueFromIndex hashing and of the lookup functions",
+		NotCovered:  "correctness of valueFromIndex hashing and of the lookup functions",
 	})
 	registerProp(&PropDef{
-		ID:    "C06",
-		Rules: []string{"X4", "T-WIRE", "X1", "A5"},
+		ID:          "C06",
+		Rules:       []string{"X4", "T-WIRE", "X1", "A5"},
 		Explanation: "Decides placement of the unique-index check: (X4) in Transaction.Transact every path to the success return passes, in order, ProcessReferences, applyReferenceUpdates and checkIndexes with each error tested, and operations are applied to the transaction cache only before it; (T-WIRE) per-operation application and cache warming pass checkIndexes=false (transient duplicates pass) while the preload passes true; (X1) the index state the check consults cannot lose entries on hand-over; (A5) no error dropped on that path.",
-		NotCovered: "the duplicate decision itself (IndexExists, deleted/rewritten row exemptions)",
+		NotCovered:  "the duplicate decision itself (IndexExists, deleted/rewritten row exemptions)",
 	})
 	registerProp(&PropDef{
-		ID:    "C07",
-		Rules: []string{"W1", "W2", "W3", "W4", "PM-ONCE", "L4", "F-PAIR", "P-NIL-MON", "T-SCAN"},
+		ID:          "C07",
+		Rules:       []string{"W1", "W2", "W3", "W4", "PM-ONCE", "L4", "F-PAIR", "P-NIL-MON", "T-SCAN"},
 		Explanation: "Decides that both notification encodings reach a handler that can decode them (W1-W3), that exactly one notification round is made per committed transaction, synchronously, under the transaction lock and after the error scan (PM-ONCE, W4, L4, T-SCAN), that the monitor filter pairs each kind of change with the select flag of the same name (F-PAIR), and that a request without select / without an entry for a table cannot crash the notification path (P-NIL-MON).",
-		NotCovered: "pre-state + notification = post-state; column projection values; 'nothing for a no-op transaction'",
+		NotCovered:  "pre-state + notification = post-state; column projection values; 'nothing for a no-op transaction'",
 	})
 	registerProp(&PropDef{
-		ID:    "C08",
-		Rules: []string{"E6", "Q-PRE", "T-WIRE", "A1", "A1p"},
+		ID:          "C08",
+		Rules:       []string{"E6", "Q-PRE", "T-WIRE", "A1", "A1p"},
 		Explanation: "Decides a narrow clause of C08: all eight condition functions are accepted by the decoder, handled by Evaluate and classified by ValidateCondition for every column type including enums (E6); index lookups are a pre-filter only — rows enter the result after the loop that evaluates every condition (Q-PRE); WhereAll/WhereAny are wired to matchAll=true/false (T-WIRE); results are copies (A1).",
-		NotCovered: "the truth table of each function on atoms, sets and maps",
+		NotCovered:  "the truth table of each function on atoms, sets and maps",
 	})
 	registerProp(&PropDef{
-		ID:    "C09",
-		Rules: []string{"E6", "T-GUARD", "GEN-ATOM", "GEN-SHAPE"},
+		ID:          "C09",
+		Rules:       []string{"E6", "T-GUARD", "GEN-ATOM", "GEN-SHAPE"},
 		Explanation: "Decides a narrow clause of C09: the conversion tables (NativeType, OvsToNative, NativeToOvs, default-value test, atomic tables) handle every column type (E6); the Go-type test dominates every conversion in NativeToOvs/NativeToOvsAtomic and SetField's assignability test dominates the reflective store, i.e. a mismatching Go type is rejected, not converted (T-GUARD).",
-		NotCovered: "round-trip equality through JSON for all values",
+		NotCovered:  "round-trip equality through JSON for all values",
 	})
 	registerProp(&PropDef{
-		ID:    "C10",
-		Rules: []string{"A3"},
+		ID:          "C10",
+		Rules:       []string{"A3"},
 		Explanation: "Decides only the clause 'neither computing nor applying a difference alters the model it was computed from': every call of the in-place algorithms (difference, applyDifference, mergeDifference, setDifference, mergeMapDifference, mutate*) receives as its rewritten argument a field of a model cloned in the same function (or at every static caller), a local accumulator, or the result of a previous step (A3).",
-		NotCovered: "apply(a, diff(a,b)) = b and emptiness iff equal: value-level",
+		NotCovered:  "apply(a, diff(a,b)) = b and emptiness iff equal: value-level",
 	})
 	registerProp(&PropDef{
-		ID:    "C11",
-		Rules: []string{"M-DROP", "A3", "A3-TABLE", "A3-DISTINCT", "A3-REPAIR", "ERR-USE", "ERR-LOOP", "ERR-DEAD", "MAP-EQ"},
+		ID:          "C11",
+		Rules:       []string{"M-DROP", "A3", "A3-TABLE", "A3-DISTINCT", "A3-REPAIR", "ERR-USE", "ERR-LOOP", "ERR-DEAD", "MAP-EQ"},
 		Explanation: "Decides only the parts of the aggregation law that are visible in the shape of the accumulator code and survive its rewrites, not the algebra over rows: (A3, A3-TABLE, A3-DISTINCT, A3-REPAIR) the in-place difference/merge algorithms only rewrite values the accumulator owns - never the first old row or an operand handed in by the caller - and a field rewritten in place is written back, so the first old value and the last new value are not damaged by a later step; (M-DROP) addUpdate stores the merged update only on the not-empty edge of the emptiness test and removes the entry on the other - an update that cancels out disappears; (ERR-USE, ERR-LOOP, ERR-DEAD) a merge that fails (unsupported sequence of updates) is reported to the caller and stops the operation, it is neither dropped, overwritten nor carried past the next step; (MAP-EQ) no map comparison through single-value lookups. Provenance rules on the accumulator's old/new fields (M-OLD, M-NEW) were built and withdrawn: one of five behaviour-preserving rewrites of merge() raised them (DESIGN.md 6).",
-		NotCovered: "that modify∘modify composes to the difference between first old and last new for every column type, cancellation of overlapping set/map differences, insert∘modify = insert of the final row: value-level algebra over rows",
+		NotCovered:  "that modify∘modify composes to the difference between first old and last new for every column type, cancellation of overlapping set/map differences, insert∘modify = insert of the final row: value-level algebra over rows",
 	})
 	registerProp(&PropDef{
-		ID:    "C12",
-		Rules: []string{"K1", "K2", "K3", "E6"},
+		ID:          "C12",
+		Rules:       []string{"K1", "K2", "K3", "E6"},
 		Explanation: "Decides codec agreement for every hand-written MarshalJSON/UnmarshalJSON pair of package ovsdb: both halves are reduced to a map wire member (or array position) -> receiver fields by a taint propagation over the typed AST; no member is dropped, duplicated or cross-wired between encoder and decoder (K1 keyed: BaseType, ColumnType, ColumnSchema, MonitorSelect; K2 positional: Condition, Mutation, MonitorCondSinceReply, UUID); the error-name tables of errorFromResult and ResultFromError are inverse bijections over all declared names (K3); the decoders of Condition and Mutation accept exactly the declared functions/mutators (E6).",
-		NotCovered: "struct-tag driven encoding done by encoding/json itself (trusted), OvsSet/OvsMap element conversion, numeric fidelity",
+		NotCovered:  "struct-tag driven encoding done by encoding/json itself (trusted), OvsSet/OvsMap element conversion, numeric fidelity",
 	})
 	registerProp(&PropDef{
-		ID:    "C13",
-		Rules: []string{"A1", "A1p", "A2", "A3", "G-COPY", "V1"},
+		ID:          "C13",
+		Rules:       []string{"A1", "A1p", "A2", "A3", "G-COPY", "V1"},
 		Explanation: "Decides which API can hand out, or keep, a mutable reference to cached storage: (A1) every exported method of cache/client/database/inmemory whose result carries models or reference lists returns only values whose provenance is a fresh copy (model.Clone/CreateModel/NewModel, or containers built from them); (A1') RowsShallow, the documented exception, has frozen callers that clone before returning; (A2) every store into RowCache.cache stores a clone, so the caller's model and the cached row never share memory; (G-COPY) each DeepCopyInto re-assigns every reference field from a copy and each Equals compares every field; (V1) event handlers receive the update's models, never the cached ones.",
-		NotCovered: "Clone's JSON fallback fidelity; reflexivity/symmetry of Equal; the generator template text",
+		NotCovered:  "Clone's JSON fallback fidelity; reflexivity/symmetry of Equal; the generator template text",
 	})
 	registerProp(&PropDef{
-		ID:    "C14",
-		Rules: []string{"V1", "V2", "V3", "W4"},
+		ID:          "C14",
+		Rules:       []string{"V1", "V2", "V3", "W4"},
 		Explanation: "Decides the event pairing: (V1) in ApplyCacheUpdate each successful Create/Update/Delete is followed on its err == nil continuation by exactly one AddEvent with the matching event type and (nil,new)/(old,new)/(old,nil), and no event is reachable on the error edge; (V2) AddEvent stores its parameters into the event and Run passes event.new/old to OnAdd/OnUpdate/OnDelete under the matching case; (V3) one producer with a non-blocking send (drop only on overflow), one consumer, all handlers called in one loop under handlersMutex; (W4) single-writer ordering of notifications.",
-		NotCovered: "reconstruction of contents from the stream; the overflow bound",
+		NotCovered:  "reconstruction of contents from the stream; the overflow bound",
 	})
 	registerProp(&PropDef{
-		ID:    "C15",
-		Rules: []string{"N-COVER", "N-PHASE", "N-POS", "G-GATE"},
+		ID:          "C15",
+		Rules:       []string{"N-COVER", "N-PHASE", "N-POS", "G-GATE"},
 		Explanation: "Decides the structure of named-UUID expansion: (N-COVER) every member of ovsdb.Operation whose type can carry a value (found by type: Row, Rows, Mutations, Where) is passed through the expansion and stored back; (N-PHASE) no write of the name map can follow a substitution, so forward references resolve; (N-POS) whether a position (atom, set element, map key, map value) is expanded depends only on that position's own type; (G-GATE) a checked ExpandNamedUUIDs dominates every operation dispatch.",
-		NotCovered: "type-directed substitution inside values (names colliding with string data), duplicate-name rejection values",
+		NotCovered:  "type-directed substitution inside values (names colliding with string data), duplicate-name rejection values",
 	})
 	registerProp(&PropDef{
-		ID:    "C16",
-		Rules: []string{"E7", "R-DEFER", "R-ONCE", "DEFER-APPEND", "L2"},
+		ID:          "C16",
+		Rules:       []string{"E7", "R-DEFER", "R-ONCE", "DEFER-APPEND", "L2"},
 		Explanation: "Decides the resynchronisation structure: (E7) a typestate analysis over connect(reconnect) and its callees shows no cache Purge is reachable after a Populate of the same cache within one reconnect (the only path refinement: a guard that is false when len(monitors) >= 2), the restart loop ranges over db.monitors, calls monitor(reconnecting=true) on every iteration and a failure resets the connection; (R-DEFER) every reconnect attempt first sets deferUpdates and clears deferredUpdates; (R-ONCE) the transact RPC is sent once per Transact; (DEFER-APPEND, L2) buffered notifications are kept in order under cacheMutex.",
-		NotCovered: "fault positions, backoff, leader election, exactly-once on the server side",
+		NotCovered:  "fault positions, backoff, leader election, exactly-once on the server side",
 	})
 	registerProp(&PropDef{
-		ID:    "C17",
-		Rules: []string{"L4", "A4", "L3", "L2", "L5", "L1", "PM-ONCE"},
+		ID:          "C17",
+		Rules:       []string{"L4", "A4", "L3", "L2", "L5", "L1", "PM-ONCE"},
 		Explanation: "Decides the serialisation structure: (L4) execute + notify + commit happen under txnMutex, released only by defer, nothing asynchronous; (A4) no other writer of committed state exists; (L5) monitor snapshot and registration are under txnMutex, so 'the order in which every monitor is notified' includes monitors that appear mid-history; (L3') txnMutex is outermost; (L1, L2) server/in-memory locks are paired and guard their fields.",
-		NotCovered: "serialisability of results over schedules: schedule/value-level",
+		NotCovered:  "serialisability of results over schedules: schedule/value-level",
 	})
 	registerProp(&PropDef{
-		ID:    "C18",
-		Rules: []string{"L1", "L2", "L3"},
+		ID:          "C18",
+		Rules:       []string{"L1", "L2", "L3"},
 		Explanation: "Decides structural necessary conditions of C18 over every function of client, cache, server and inmemory: (L1) every mutex acquired is released or deferred on every return path — acquire wrappers (waitForCacheConsistent) are summarised and their callers must release; (L2) every access to a lock-guarded field (rpcClient, connected, endpoints, monitors, deferUpdates, deferredUpdates, RowCache.cache/indexes, TableCache.cache, handlers, server monitors/models/ready) happens with its lock must-held, in write mode for writes, through all static callers of unexported helpers; (L3') rpcMutex is never acquired while holding a lock that is taken under it elsewhere (ABBA with reconnect).",
-		NotCovered: "data races on fields ordered by WaitGroup/channels, torn reads, channel-send liveness, general deadlock freedom",
+		NotCovered:  "data races on fields ordered by WaitGroup/channels, torn reads, channel-send liveness, general deadlock freedom",
 	})
 	registerProp(&PropDef{
-		ID:    "C19",
-		Rules: []string{"P-IDX", "P-ASSERT", "P-NIL", "P-HASH", "P-NIL-TXN", "P-NIL-MON", "P-DIV", "G-GATE", "N-COVER"},
+		ID:          "C19",
+		Rules:       []string{"P-IDX", "P-ASSERT", "P-NIL", "P-HASH", "P-NIL-TXN", "P-NIL-MON", "P-DIV", "G-GATE", "N-COVER"},
 		Explanation: "Decides totality obligations on the code that consumes untrusted input, for every site: in every UnmarshalJSON of package ovsdb and the functions they reach, each slice/string index needs a dominating length test on an equivalent operand (P-IDX), each single-result type assertion a dominating successful comma-ok assertion / type-switch arm (P-ASSERT), each optional pointer member a dominating nil test (P-NIL), each interface-typed map key a comparable dynamic type on every path (P-HASH); on the transaction path every optional member of an Operation is nil-tested (P-NIL-TXN), every integer / and % has a non-zero divisor locally or through the ValidateMutation gate pair (P-DIV), unknown tables/columns are rejected before dispatch (G-GATE), and the notification path tolerates absent select/request (P-NIL-MON).",
-		NotCovered: "unchecked assertions in the transaction path that rely on upstream schema validation, 'cannot happen' panics on schema errors, resource exhaustion",
+		NotCovered:  "unchecked assertions in the transaction path that rely on upstream schema validation, 'cannot happen' panics on schema errors, resource exhaustion",
 	})
 	registerProp(&PropDef{
-		ID:    "C20",
-		Rules: []string{"GEN-ATOM", "GEN-SHAPE", "E6", "D-ORDER", "G-COPY"},
+		ID:          "C20",
+		Rules:       []string{"GEN-ATOM", "GEN-SHAPE", "E6", "D-ORDER", "G-COPY"},
 		Explanation: "Decides the parts of C20 that are Go code: (GEN-ATOM) the Go type name the generator emits for each atomic type equals the type the mapper expects (resolved through the reflect.TypeOf initialisers of NativeTypeFromAtomic); (GEN-SHAPE) generator and mapper decide pointer / scalar / slice on the same (min,max) tests; (E6) fieldType and AtomicType handle every column type; (D-ORDER) in package modelgen every range over a map only collects keys that are sorted before use, so output is identical from run to run; (G-COPY) the checked-in generated model's DeepCopyInto/Equals cover every field.",
-		NotCovered: "that generated code compiles, naming/initialism handling, everything inside the text/template source (a string, not Go syntax)",
+		NotCovered:  "that generated code compiles, naming/initialism handling, everything inside the text/template source (a string, not Go syntax)",
 	})
 }
 
@@ -376,4 +376,23 @@ func init() {
 	add("C08", "X5")
 	add("C10", "A3-REPAIR", "A3-TABLE")
 	add("C13", "X5", "S-PURE")
+	// after the sixth wave of seeded changes
+	registerRule(&RuleDef{ID: "N-FIELDS", Min: 9, Doc: "in the substitution pass of ExpandNamedUUIDs every operation reaches the walk over each member it may carry (where/mutations/rows/row)", Run: ruleNFIELDS})
+	add("C15", "N-FIELDS")
+	registerRule(&RuleDef{ID: "T-TRAFFIC", Min: 1, Doc: "the traffic-seen signal of the inactivity probe is only raised under a branch fact about the RPC's error", Run: ruleTTRAFFIC})
+	add("C16", "T-TRAFFIC")
+	registerRule(&RuleDef{ID: "K-ATOMKEYS", Min: 4, Doc: "the OvsMap decoder admits every atom type (string, float64, bool, UUID) as a map key", Run: ruleKATOMKEYS})
+	add("C09", "K-ATOMKEYS")
+	add("C12", "K-ATOMKEYS")
+	registerRule(&RuleDef{ID: "ERR-USE-CODEC", Min: 40, Doc: "in the wire codec and the mapper an error that is tested and set is used or ends the function (three listed exceptions)", Run: ruleERRUSECODEC})
+	add("C09", "ERR-USE-CODEC")
+	add("C12", "ERR-USE-CODEC")
+	add("C19", "ERR-USE-CODEC")
+	registerRule(&RuleDef{ID: "R-WG", Min: 2, Doc: "every goroutine of the client that watches stopCh is counted in handlerShutdown", Run: ruleRWG})
+	add("C14", "R-WG")
+	add("C16", "R-WG")
+	add("C01", "ERR-LOOP")
+	add("C03", "X1", "MAX-ONE")
+	add("C04", "MAX-ONE")
+	add("C16", "X2")
 }
